@@ -90,3 +90,16 @@ KERNEL void K(k_c9_const_strides234)(size_t* out){ auto r = ix::compute_strides(
 KERNEL int K(k_c9_const_bshape)(size_t* out, size_t* n){ auto r = ix::broadcast_shape(nmtools_tuple{2_ct,1_ct,4_ct}, nmtools_tuple{3_ct,1_ct}); return put_maybe(r,out,n); }
 // (incompatible CONSTANT shapes are rejected at compile time - a type error, not observable at run time)
 KERNEL int K(k_c9_mixed_bshape)(const size_t* b, size_t* out, size_t* n){ auto r = ix::broadcast_shape(nmtools_tuple{2_ct,1_ct,4_ct}, A<2>(b)); return put_maybe(r,out,n); }
+
+// shape_reshape of a RUN-TIME source shape (kind ks: 0 array, 1 static vector, 2 list) to a compile-time CONSTANT target (2,3) / (3,-1 is not constant: only positive constants)
+template <typename R> static inline int put_maybe_ct(const R& r, size_t* out, size_t* n){
+  if (!nm::has_value(r)) return 0; const auto& v = nm::unwrap(r); constexpr auto N = meta::len_v<meta::remove_cvref_t<decltype(v)>>; *n = N;
+  meta::template_for<N>([&](auto i){ out[i] = (size_t)nm::at(v,i); }); return 1; }
+KERNEL int K(k_c9_reshape_ctdst)(int ks, const size_t* s, size_t* out, size_t* n){
+  auto dst = nmtools_tuple{2_ct,3_ct};
+  if (ks==0) return put_maybe_ct(ix::shape_reshape(A<3>(s), dst), out, n);
+  if (ks==1) return put_maybe_ct(ix::shape_reshape(S<4>(s,3), dst), out, n);
+  return put_maybe_ct(ix::shape_reshape(L(s,3), dst), out, n);
+}
+// all-constant source and target: folded in the type system
+KERNEL int K(k_c9_reshape_ctct)(size_t* out, size_t* n){ return put_maybe_ct(ix::shape_reshape(nmtools_tuple{1_ct,3_ct,2_ct}, nmtools_tuple{2_ct,3_ct}), out, n); }
